@@ -159,3 +159,42 @@ fn witness_find_uci_accepts_exactly_the_legal_moves() {
     }
     assert_eq!(bad, 0);
 }
+
+#[test]
+fn witness_is_move_legal_and_any() {
+    let mut bad = 0;
+    for fen in TRICKY {
+        let mut board = Bitboard::from_fen_string_unchecked(fen);
+        let white = fen.split(' ').nth(1) == Some("w");
+        let before = snap(&board);
+        let pseudo = board.generate_pseudo_legal_moves();
+        let mut any = false;
+        for &mv in &pseudo {
+            board.make(mv);
+            let legal = !king_attacked(&snap(&board), white);
+            board.unmake(mv);
+            any = any || legal;
+            let got = board.is_move_legal(mv);
+            if got != legal || snap(&board) != before {
+                if bad < 5 { println!("FAILING-INPUT: fen={:?} is_move_legal({}) = {} but the move is {} (position afterwards {:?})", fen, mv.to_uci_string(), got, if legal { "legal" } else { "illegal" }, snap(&board)); }
+                bad += 1;
+                board = Bitboard::from_fen_string_unchecked(fen);
+            }
+        }
+        let got = board.is_any_move_legal(&pseudo);
+        if got != any || snap(&board) != before {
+            if bad < 5 { println!("FAILING-INPUT: fen={:?} is_any_move_legal(all pseudo-legal moves) = {} expected {} (position afterwards {:?})", fen, got, any, snap(&board)); }
+            bad += 1;
+        }
+    }
+    // a mated and a stalemated position: no move is legal
+    for fen in ["6k1/8/8/8/8/8/5PPP/3r2K1 w - - 0 1", "7k/5Q2/6K1/8/8/8/8/8 b - - 0 1"] {
+        let mut board = Bitboard::from_fen_string_unchecked(fen);
+        let pseudo = board.generate_pseudo_legal_moves();
+        if board.is_any_move_legal(&pseudo) {
+            println!("FAILING-INPUT: fen={:?} is_any_move_legal = true in a position without legal moves", fen);
+            bad += 1;
+        }
+    }
+    assert_eq!(bad, 0);
+}
